@@ -151,8 +151,8 @@ func (m *backoffModel) capped(v ssa.Value, seen map[ssa.Value]bool) bool {
 			if m.capped(e, seen) {
 				continue
 			}
-			ok := false
-			for _, a := range edgeConds(x.Block().Preds[i], x.Block()) {
+			ok := m.edgeBounds(x.Block().Preds[i], x.Block(), e, 0)
+			for _, a := range []Atom{} {
 				ax, ay := stripConv(a.X), stripConv(a.Y)
 				// cap disabled on this edge
 				if m.retryField(ax) == "Cap" && (a.Op == token.LEQ || a.Op == token.EQL) {
@@ -176,6 +176,38 @@ func (m *backoffModel) capped(v ssa.Value, seen map[ssa.Value]bool) bool {
 		return len(x.Edges) > 0
 	}
 	_ = v0
+	return false
+}
+
+// edgeBounds: on the edge pred→blk the value e is known to be <= Cap, or the cap is disabled (Cap <= 0). An edge
+// leaving a block that only joins other edges (`if cap > 0 && v > cap { … }` falls through from two tests) is bounded
+// when every edge into that block is.
+func (m *backoffModel) edgeBounds(pred, blk *ssa.BasicBlock, e ssa.Value, depth int) bool {
+	ev := stripConv(e)
+	for _, a := range edgeConds(pred, blk) {
+		ax, ay := stripConv(a.X), stripConv(a.Y)
+		if m.retryField(ax) == "Cap" && (a.Op == token.LEQ || a.Op == token.EQL) {
+			if cst, isC := ay.(*ssa.Const); isC && cst.Value != nil && constant.Sign(cst.Value) == 0 {
+				return true
+			}
+		}
+		if ax == ev && m.retryField(ay) == "Cap" && (a.Op == token.LEQ || a.Op == token.LSS) {
+			return true
+		}
+		if ay == ev && m.retryField(ax) == "Cap" && (a.Op == token.GEQ || a.Op == token.GTR) {
+			return true
+		}
+	}
+	if depth < 4 && len(pred.Instrs) == 1 && len(pred.Preds) > 0 {
+		if _, isJump := pred.Instrs[0].(*ssa.Jump); isJump {
+			for _, pp := range pred.Preds {
+				if !m.edgeBounds(pp, pred, e, depth+1) {
+					return false
+				}
+			}
+			return true
+		}
+	}
 	return false
 }
 
